@@ -1212,6 +1212,14 @@ def short_shards(tier):
 
 
 def run(ctx):
+    _run_sequential(ctx)
+    only = getattr(ctx, 'only', None) or set()
+    if not only or 'conc' in only:
+        from vf.harness import c07conc
+        c07conc.run_conc(ctx)
+
+
+def _run_sequential(ctx):
     # note: no big objects may live in this frame - the pool workers are forked below it, and frappy's error replies
     # repr() every local of every frame of the stack (formatExtendedStack)
     tier = ctx.tier
@@ -1261,6 +1269,9 @@ def run(ctx):
 
 
 def replay(case):
+    if case.get('kind') == 'conc':
+        from vf.harness import c07conc
+        return c07conc.replay_conc(case)
     part = core.Part()
     sub = case.get('sub')
     if sub == 'codec-triple':
